@@ -269,6 +269,35 @@ def build(spec, out_dir):
         keep = {'None'} | {f'{lv}/{node}' for lv in model['hierarchy'][:-1]
                            for node in model['nodes'][lv]}
         table = {k: v for k, v in table.items() if k in keep}
+    if spec.get('flat_cell') and n_cells >= 1 and len(h) >= 2:
+        # one cell with no counts on any marker of a non-root parent but a
+        # clear signal on genes only the root uses: below the root its
+        # profile is flat and every correlation is exactly 0
+        qset = set(q_genes)
+        root_q = [g for g in table.get('None', []) if g in qset]
+        reserve = root_q[:2]
+        for key in list(table):
+            if key != 'None':
+                table[key] = [g for g in table[key] if g not in reserve]
+        non_root = set()
+        for key, gl in table.items():
+            if key != 'None':
+                non_root |= set(gl)
+        k0 = n_cells - 1 - (1 if spec.get('zero_cell') else 0)
+        b.flat_cells = []
+        # up to three such cells with different root signals, so that they
+        # are routed into different children of the root
+        for k, vals in zip(range(k0, max(k0 - 3, 1), -1),
+                           ((7.0, 90.0), (90.0, 7.0), (60.0, 1.0))):
+            for j, g in enumerate(q_genes):
+                if g in non_root:
+                    raw[k, j] = 0.0
+            for val, g in zip(vals, reserve):
+                raw[k, q_genes.index(g)] = val
+            b.flat_cells.append(ids[k])
+        b.raw = raw
+        b.log2cpm = own_log2cpm(raw)
+        b.flat_cell = ids[k0]
     b.marker_table = table
     b.marker_path = out_dir / 'markers.json'
     with open(b.marker_path, 'w') as dst:
